@@ -443,3 +443,34 @@ def cpp_getters_bytewise(csup: str) -> bool:
         if re.search(r'\*\s*reinterpret_cast|aligned_ptr\s*\(|data_\s*\[|data_\.data\(\)|memcpy|memmove', body):
             ok = False
     return ok
+
+
+def cpp_hdr_check(macro, cdes: str) -> str:
+    """the delimiter-header test of the C++ _deserialize_composite: 'HMulCmp' = `(h * 8U) > in_buffer.size()` (the product wraps where
+    size_t is narrow), 'HDivCmp' = `h > (in_buffer.size() / 8U)`; anything else fails closed"""
+    body = macro(cdes, '_deserialize_composite')
+    tests = re.findall(r'if\s*\((.*?)\)\s*(?://[^\n]*)?\n\s*\{\s*return\s+-nunavut::support::Error::RepresentationBadDelimiterHeader', body, flags=re.S)
+    if len(tests) != 1:
+        raise Closed('C++ _deserialize_composite: delimiter header test not found')
+    t = tests[0].replace(' ', '')
+    if t == '({{ref_size_bytes}}*8U)>in_buffer.size()':
+        raise Closed('C++ delimiter header test multiplies before comparing again (F-CPP-HDR-WRAP32, fixed in f2f61d1): wraps on a 32-bit size_t')
+    if t == '{{ref_size_bytes}}>(in_buffer.size()/8U)':
+        return 'HDivCmp'
+    raise Closed('C++ delimiter header test not recognised: ' + t)
+
+
+def c_assert_max_not_under_override(ser: str, cser: str) -> bool:
+    """the `maximum still fits` assertion of _serialize_any is emitted only when the capacity override option is off (C and C++ alike)"""
+    res = []
+    for text, pat in ((ser, r"\{\{\s*assert\('\(offset_bits \+ %dULL\) <= \(capacity_bytes \* 8U\)'"), (cser, r"\{\{\s*assert\('%dULL <= out_buffer\.size\(\)'")):
+        ms = list(re.finditer(pat, text))
+        if len(ms) != 1:
+            raise Closed('_serialize_any: maximum-fits assertion not found')
+        before = text[:ms[0].start()].rstrip().split('\n')[-1].strip()
+        after = text[ms[0].end():].split('\n')[1].strip()
+        res.append(bool(re.fullmatch(r'\{%-?\s*if\s+not\s+options\.enable_override_variable_array_capacity\s*-?%\}', before))
+                   and bool(re.fullmatch(r'\{%-?\s*endif\s*-?%\}', after)))
+    if not (res[0] and res[1]):
+        raise Closed('_serialize_any: the maximum-fits assertion is emitted under the capacity override again (F-C-OVR-ASSERT, fixed in f2f61d1)')
+    return True
